@@ -637,9 +637,37 @@ func TestC31(t *testing.T) {
 			}
 		}
 		rule := scriptDataHashRule(era)
-		rerr := rule(ltx, 0, st, pp)
-		rec.Eval()
-		judge(era.String()+".UtxoValidateScriptDataHash", rerr == nil, v.h, v.name, raw)
+		ruleNames := []string{era.String() + ".UtxoValidateScriptDataHash", "VerifyTransaction(" + era.String() + ".UtxoValidationRules)"}
+		runRules := func(t common.Transaction, s *State, p common.ProtocolParameters) []error {
+			return []error{rule(t, 0, s, p), common.VerifyTransaction(t, 0, s, p, rulesFor(era))}
+		}
+		cmBefore := snapCostModels(c.CM)
+		pfail := func(key, what string) bool { return rec.Fail(rt, key, what, c.sample(raw, v.name)) }
+
+		// transaction B for the history check: the same witnesses with another declared
+		// hash; validated FRESH first (own objects, own copy of the cost models)
+		vb := vs[0] // "correct"
+		if v.name == "correct" {
+			vb = vs[3+rapid.IntRange(0, len(vs)-4).Draw(rt, "declaredB")]
+		}
+		rawB := c.assemble(vb.h)
+		var bFresh []string
+		var ltxB common.Transaction
+		if t0, err := decodeTx(era, rawB); err == nil {
+			prB := defaultParams(era)
+			prB.CostModels = map[uint][]int64{}
+			for k, m := range c.CM {
+				prB.CostModels[k] = append([]int64(nil), m...)
+			}
+			bFresh = verdictsOf(runRules(t0, c.state(), prB.forEra(era)))
+			ltxB, _ = decodeTx(era, rawB)
+		}
+
+		// A: twice on the same object (purity + repeatability)
+		errsA := pureRun(pfail, "C31", era.String(), ltx, ruleNames, func() []error { return runRules(ltx, st, pp) })
+		rerr, ferr := errsA[0], errsA[1]
+		rec.EvalN(2)
+		judge(ruleNames[0], rerr == nil, v.h, v.name, raw)
 		if rerr == nil {
 			rec.Class("rule_accepts")
 		} else {
@@ -648,11 +676,43 @@ func TestC31(t *testing.T) {
 				rec.Class("over_reject_correct_hash:" + errClass(rerr))
 			}
 		}
-		ferr := common.VerifyTransaction(ltx, 0, st, pp, rulesFor(era))
-		rec.Eval()
-		judge("VerifyTransaction("+era.String()+".UtxoValidationRules)", ferr == nil, v.h, v.name, raw)
+		judge(ruleNames[1], ferr == nil, v.h, v.name, raw)
 		if ferr == nil {
 			rec.Class("full_list_accepts")
+		}
+
+		// ---- history: A, then B, then A again with the same state / parameters / cost-model maps
+		if ltxB != nil {
+			errsB := runRules(ltxB, st, pp)
+			rec.Eval()
+			vB := verdictsOf(errsB)
+			for i := range vB {
+				if vB[i] != bFresh[i] {
+					rec.Fail(rt, "C31:"+era.String()+":verdict-depends-on-history",
+						fmt.Sprintf("%s of transaction B (declared %s): %s on a fresh setup, %s after transaction A (declared %s) was validated with the same state/parameters", ruleNames[i], vb.name, bFresh[i], vB[i], v.name),
+						map[string]any{"tx_a": evi.Hex(raw), "tx_b": evi.Hex(rawB)})
+				}
+				judge(ruleNames[i]+" (transaction B, validated after A)", errsB[i] == nil, vb.h, vb.name, rawB)
+			}
+			vA1, vA3 := verdictsOf(errsA), verdictsOf(runRules(ltx, st, pp))
+			rec.Eval()
+			for i := range vA1 {
+				if vA1[i] != vA3[i] {
+					rec.Fail(rt, "C31:"+era.String()+":verdict-depends-on-history",
+						fmt.Sprintf("%s of transaction A (declared %s): %s at first, %s after transaction B (declared %s) was validated in between", ruleNames[i], v.name, vA1[i], vA3[i], vb.name),
+						map[string]any{"tx_a": evi.Hex(raw), "tx_b": evi.Hex(rawB)})
+				}
+			}
+		}
+		// the language-views encoder is a function of its arguments and leaves them alone
+		if lv2, err2 := common.EncodeLangViews(usedSet, c.CM); (err2 == nil) != (lvErr == nil) || !bytes.Equal(lv2, lvGot) {
+			rec.Fail(rt, "C31:langviews:result-depends-on-history", fmt.Sprintf("EncodeLangViews(langs=%v) with the same arguments: first %x (err %v), later %x (err %v)", used, lvGot, lvErr, lv2, err2), nil)
+		}
+		if len(usedSet) != len(used) {
+			rec.Fail(rt, "C31:langviews:mutates-used-versions", "EncodeLangViews changed the set of used versions it was given", nil)
+		}
+		if after := snapCostModels(c.CM); after != cmBefore {
+			rec.Fail(rt, "C31:"+era.String()+":rule-mutates-cost-models", fmt.Sprintf("validating changed the cost-model tables of the protocol parameters: before %s, after %s", clipS(cmBefore), clipS(after)), nil)
 		}
 
 		// ---- feed the library's own computation back ----------------------------------------
